@@ -1,4 +1,323 @@
+/* c11_float.h — fixed<->double conversions and the pixman_f_transform family over finite doubles. */
 #ifndef C11_FLOAT_H
 #define C11_FLOAT_H
-static void c11_run_float(int th) { (void)th; }
+#include "c11_common.h"
+
+#define DBL_U 1.1102230246251565e-16L      /* 2^-53 */
+
+static const char *fmat_str(const pixman_f_transform_t *m, char *buf, size_t cap)
+{
+    size_t l = 0;
+    for (int i = 0; i < 3; i++) l += snprintf(buf + l, cap - l, "%s[%.17g, %.17g, %.17g]", i ? " " : "", m->m[i][0], m->m[i][1], m->m[i][2]);
+    return buf;
+}
+static void f_from_fixed(const pixman_transform_t *t, pixman_f_transform_t *f) { for (int i = 0; i < 3; i++) for (int j = 0; j < 3; j++) f->m[i][j] = t->matrix[i][j] / 65536.0; }
+
+/* reference value of sum a_i*b_i in long double with the error a double evaluation may have */
+typedef struct { long double val, tol; } ref_t;
+static ref_t ref_dot(const double *a, int sa, const double *b, int sb, int n)
+{
+    ref_t r = { 0, 0 }; long double mag = 0;
+    for (int i = 0; i < n; i++) { long double p = (long double)a[i * sa] * (long double)b[i * sb]; r.val += p; mag += fabsl(p); }
+    r.tol = 8 * DBL_U * mag;          /* <= n+1 roundings of relative 2^-53 each, with margin */
+    return r;
+}
+static int ref_ok(ref_t r, double got) { return isfinite(got) && fabsl((long double)got - r.val) <= r.tol; }
+
+/* ---------------------------------------------------------------- conversions */
+typedef struct { int64_t k; int q; double d; int huge; } dval;     /* value (k + q/4) / 65536, or a huge/tiny special */
+#define NDV_MAX 96
+static dval DV[NDV_MAX]; static int NDV;
+static void build_dvals(void)
+{
+    static const int64_t base[] = { 0, 1, -1, 0x8000, 0xffff, 0x10000, -0x10000, 0x7ffeffff, 0x7fff0000, -0x7fff0000, 0x7fff0001, -0x7fff0001, 0x7fffffff,
+                                    -0x7fffffffLL, -0x80000000LL, 0x80000000LL, -0x80000001LL };
+    NDV = 0;
+    for (unsigned i = 0; i < sizeof base / sizeof base[0]; i++) for (int q = 0; q < 4; q++) {
+        dval v = { base[i], q, ((double)base[i] + q / 4.0) / 65536.0, 0 };
+        DV[NDV++] = v;
+    }
+    static const double sp[] = { 1e10, -1e10, 1e300, -1e300, 9.094947017729282e-13 /* 2^-40 */, -9.094947017729282e-13 };
+    for (unsigned i = 0; i < sizeof sp / sizeof sp[0]; i++) { dval v = { 0, 0, sp[i], fabs(sp[i]) > 1 ? 1 : 2 }; DV[NDV++] = v; }
+}
+/* admissible fixed values and verdict for one double */
+static int dval_oracle(const dval *v, iv_t *adm)
+{
+    if (v->huge == 1) { *adm = iv_empty(); return V_FALSE; }
+    if (v->huge == 2) { adm->lo = adm->hi = 0; return V_TRUE; }
+    adm->lo = v->q == 3 ? v->k + 1 : v->k;          /* k, k+1/4 -> k;  k+3/4 -> k+1;  k+1/2 -> either */
+    adm->hi = v->q >= 2 ? v->k + 1 : v->k;
+    int ver = verdict(*adm, I32_MIN_, I32_MAX_);
+    /* the library documents its own, slightly narrower range [-32767, 32767]: outside it FALSE is accepted even if representable */
+    if (ver != V_FALSE && (v->d < -32767.0 || v->d > 32767.0)) ver = V_EITHER;
+    return ver;
+}
+static int thunk_fromf(void *p) { void **a = p; return pixman_transform_from_pixman_f_transform(a[0], a[1]); }
+
+static void conv_block(uint64_t idx, void *ctx)
+{
+    (void)ctx;
+    int pos = (int)(idx % 9), oi = (int)(idx / 9);     /* entry `pos` runs over DV, all other entries are DV[oi] */
+    uint64_t n = 0, nt = 0; char fb[500], ob[400], q0[48], q1[48];
+    c11_blk_begin();
+    for (int vi = 0; vi < NDV; vi++) {
+        pixman_f_transform_t f; pixman_transform_t out; iv_t adm[9]; int want = V_TRUE, band = 0;
+        for (int e = 0; e < 9; e++) {
+            const dval *v = &DV[e == pos ? vi : oi];
+            f.m[e / 3][e % 3] = v->d;
+            int ver = dval_oracle(v, &adm[e]);
+            if (ver == V_EITHER && verdict(adm[e], I32_MIN_, I32_MAX_) != V_FALSE) band = 1;
+            want = verdict_and(want, ver);
+        }
+        memset(&out, 0x44, sizeof out);
+        void *args[2] = { &out, &f };
+        int ret = c11_guard(thunk_fromf, args);
+        n++; nt += want != V_TRUE || DV[vi].q != 0;
+        if (ret < 0) c11_fail("c11-from-f-transform-abort", "aborts: %s; f=%s", c11_abort_msg, fmat_str(&f, fb, sizeof fb));
+        else if (ret && want == V_FALSE) c11_fail("c11-from-f-transform-true-on-overflow", "pixman_transform_from_pixman_f_transform returned TRUE (%s) although an entry does not fit 16.16; f=%s",
+                                                  mat_str(&out, ob, sizeof ob), fmat_str(&f, fb, sizeof fb));
+        else if (!ret && want == V_TRUE) c11_fail("c11-from-f-transform-false-in-range", "returned FALSE although every entry is within [-32767, 32767]; f=%s", fmat_str(&f, fb, sizeof fb));
+        else if (ret) {
+            for (int e = 0; e < 9; e++) if (!iv_has(adm[e], out.matrix[e / 3][e % 3])) {
+                c11_fail("c11-from-f-transform-not-rounded", "entry [%d][%d]: %.17g -> %d, correctly rounded is [%s,%s]; f=%s", e / 3, e % 3, f.m[e / 3][e % 3], out.matrix[e / 3][e % 3],
+                         i128_str(adm[e].lo, q0), i128_str(adm[e].hi, q1), fmat_str(&f, fb, sizeof fb));
+                break;
+            }
+        } else if (band && want == V_EITHER) ST_ADD(fromf_band_false, 1);
+        vf_outcome(ret > 0 ? mat_hash(&out, 21) : (uint64_t)(ret + 31));
+        /* and back: fixed -> double is exact */
+        if (ret > 0) {
+            pixman_f_transform_t back;
+            pixman_f_transform_from_pixman_transform(&back, &out);
+            for (int e = 0; e < 9; e++) if (back.m[e / 3][e % 3] * 65536.0 != (double)out.matrix[e / 3][e % 3]) {
+                c11_fail("c11-to-f-transform-inexact", "pixman_f_transform_from_pixman_transform: entry %d of %s became %.17g", e, mat_str(&out, ob, sizeof ob), back.m[e / 3][e % 3]);
+                break;
+            }
+            if (vi == 22 && idx % 61 == 7 && c11_want_sample(6))
+                vf_sample("from_pixman_f_transform f=%s -> TRUE %s (each entry correctly rounded), and back exactly", fmat_str(&f, fb, sizeof fb), mat_str(&out, ob, sizeof ob));
+        }
+    }
+    c11_blk_end();
+    vf_count_eval(n); vf_count_nontrivial(nt); vf_count_libcalls(2 * n);
+}
+
+/* fixed -> double over every alphabet value in every position */
+static void tof_block(uint64_t idx, void *ctx)
+{
+    (void)ctx;
+    pixman_transform_t t; pixman_f_transform_t f; char mb[400];
+    for (int e = 0; e < 9; e++) t.matrix[e / 3][e % 3] = A21[(idx + 5 * e) % 21];
+    memset(&f, 0, sizeof f);
+    pixman_f_transform_from_pixman_transform(&f, &t);
+    vf_count_eval(1); vf_count_nontrivial(1); vf_count_libcalls(1);
+    for (int e = 0; e < 9; e++) if (f.m[e / 3][e % 3] * 65536.0 != (double)t.matrix[e / 3][e % 3] || f.m[e / 3][e % 3] != ldexp((double)t.matrix[e / 3][e % 3], -16))
+        vf_violation("c11-to-f-transform-inexact", "entry %d of %s became %.17g", e, mat_str(&t, mb, sizeof mb), f.m[e / 3][e % 3]);
+    vf_outcome(vf_hash64(&f, sizeof f, 23));
+}
+
+/* ---------------------------------------------------------------- f_transform family */
+typedef struct { int op; pixman_f_transform_t *f, *r; double a, b; } fsrt_args;
+static int thunk_fsrt(void *p)
+{
+    fsrt_args *x = p;
+    switch (x->op) {
+    case 0: return pixman_f_transform_scale(x->f, x->r, x->a, x->b);
+    case 1: return pixman_f_transform_rotate(x->f, x->r, x->a, x->b);
+    default: return pixman_f_transform_translate(x->f, x->r, x->a, x->b);
+    }
+}
+static int fmat_check(const char *key, const char *what, const pixman_f_transform_t *l, const pixman_f_transform_t *r, const pixman_f_transform_t *got, const char *desc)
+{
+    char gb[500];
+    for (int i = 0; i < 3; i++) for (int j = 0; j < 3; j++) {
+        ref_t e = ref_dot(&l->m[i][0], 1, &r->m[0][j], 3, 3);
+        ST_ADD(f_demanded, 1); if (e.tol == 0 || (double)e.val == e.val) ST_ADD(f_exact, 1);
+        if (!ref_ok(e, got->m[i][j])) {
+            c11_fail(key, "%s[%d][%d] = %.17g, exact %.20Lg (tolerance %.3Lg); result %s; %s", what, i, j, got->m[i][j], e.val, e.tol, fmat_str(got, gb, sizeof gb), desc);
+            return 0;
+        }
+    }
+    return 1;
+}
+
+typedef struct { int nm; } f_ctx;
+
+/* block = matrix index; inner: partner matrices (multiply), vectors (point, point_3d), srt parameters, boxes */
+static void ffam_block(uint64_t idx, void *ctx)
+{
+    const f_ctx *fc = ctx;
+    uint64_t total = 1; for (int i = 0; i < 5; i++) total *= fc->nm;
+    pixman_transform_t ta, tb; pixman_f_transform_t A, B, out;
+    srt_matrix(idx, fc->nm, &ta); f_from_fixed(&ta, &A);
+    uint64_t n = 0, nt = 0; char ab[500], bb[500], desc[1300];
+    c11_blk_begin();
+    /* init functions */
+    {
+        pixman_f_transform_t t;
+        pixman_f_transform_init_identity(&t);
+        for (int i = 0; i < 3; i++) for (int j = 0; j < 3; j++) if (t.m[i][j] != (i == j)) c11_fail("c11-f-init-wrong", "init_identity [%d][%d] = %g", i, j, t.m[i][j]);
+        double p = A.m[0][0], q = A.m[0][2];
+        pixman_f_transform_init_scale(&t, p, q);
+        if (t.m[0][0] != p || t.m[1][1] != q || t.m[2][2] != 1 || t.m[0][1] || t.m[0][2] || t.m[1][0] || t.m[1][2] || t.m[2][0] || t.m[2][1]) c11_fail("c11-f-init-wrong", "init_scale(%g,%g)", p, q);
+        pixman_f_transform_init_rotate(&t, p, q);
+        if (t.m[0][0] != p || t.m[1][1] != p || t.m[0][1] != -q || t.m[1][0] != q || t.m[2][2] != 1 || t.m[0][2] || t.m[1][2] || t.m[2][0] || t.m[2][1]) c11_fail("c11-f-init-wrong", "init_rotate(%g,%g)", p, q);
+        pixman_f_transform_init_translate(&t, p, q);
+        if (t.m[0][0] != 1 || t.m[1][1] != 1 || t.m[2][2] != 1 || t.m[0][2] != p || t.m[1][2] != q || t.m[0][1] || t.m[1][0] || t.m[2][0] || t.m[2][1]) c11_fail("c11-f-init-wrong", "init_translate(%g,%g)", p, q);
+        n += 4;
+    }
+    /* multiply (also with dst aliasing l) */
+    for (uint64_t j = 0; j < total; j++) {
+        srt_matrix(j, fc->nm, &tb); f_from_fixed(&tb, &B);
+        snprintf(desc, sizeof desc, "pixman_f_transform_multiply l=%s r=%s", fmat_str(&A, ab, sizeof ab), fmat_str(&B, bb, sizeof bb));
+        pixman_f_transform_multiply(&out, &A, &B);
+        n++; nt++;
+        fmat_check("c11-f-multiply-inaccurate", "product", &A, &B, &out, desc);
+        pixman_f_transform_t alias = A;
+        pixman_f_transform_multiply(&alias, &alias, &B);
+        if (memcmp(&alias, &out, sizeof out)) c11_fail("c11-f-multiply-alias", "dst == l gives a different product; %s", desc);
+        vf_outcome(vf_hash64(&out, sizeof out, 31));
+    }
+    /* point / point_3d over vectors from the extremes alphabet */
+    for (int vi = 0; vi < 343; vi++) {
+        double v[3] = { A7X[vi % 7] / 65536.0, A7X[vi / 7 % 7] / 65536.0, A7X[vi / 49] / 65536.0 };
+        ref_t e[3]; for (int i = 0; i < 3; i++) e[i] = ref_dot(&A.m[i][0], 1, v, 1, 3);
+        snprintf(desc, sizeof desc, "M=%s v=(%.17g, %.17g, %.17g)", fmat_str(&A, ab, sizeof ab), v[0], v[1], v[2]);
+        struct pixman_f_vector fv = { { v[0], v[1], v[2] } };
+        pixman_f_transform_point_3d(&A, &fv);
+        n += 2; nt++;
+        for (int i = 0; i < 3; i++) if (!ref_ok(e[i], fv.v[i])) { c11_fail("c11-f-point-3d-inaccurate", "component %d = %.17g, exact %.20Lg; %s", i, fv.v[i], e[i].val, desc); break; }
+        struct pixman_f_vector pv = { { v[0], v[1], v[2] } };
+        int ret = pixman_f_transform_point(&A, &pv);
+        if (e[2].val == 0 && ret) c11_fail("c11-f-point-true-on-zero-w", "pixman_f_transform_point returned TRUE although w is exactly 0; %s", desc);
+        else if (!ret && fabsl(e[2].val) > e[2].tol) c11_fail("c11-f-point-false-on-nonzero-w", "returned FALSE although w = %.20Lg; %s", e[2].val, desc);
+        else if (ret && fabsl(e[2].val) > 64 * e[2].tol) {
+            for (int i = 0; i < 2; i++) {
+                long double q = e[i].val / e[2].val;
+                long double tol = 4 * DBL_U * fabsl(q) + e[i].tol / fabsl(e[2].val) + fabsl(q) * e[2].tol / fabsl(e[2].val);
+                ST_ADD(f_demanded, 1);
+                if (!isfinite(pv.v[i]) || fabsl((long double)pv.v[i] - q) > tol) { c11_fail("c11-f-point-inaccurate", "coordinate %d = %.17g, exact %.20Lg (tolerance %.3Lg); %s", i, pv.v[i], q, tol, desc); break; }
+            }
+            if (pv.v[2] != 1) c11_fail("c11-f-point-inaccurate", "v[2] = %g after a successful f_transform_point; %s", pv.v[2], desc);
+        }
+        vf_outcome(vf_mix(vf_hash64(&pv, sizeof pv, 33), (uint64_t)ret));
+    }
+    /* scale / rotate / translate with forward/reverse NULL or not */
+    for (int op = 0; op < 3; op++) for (int mode = 0; mode < 3; mode++) for (int ia = 0; ia < 21; ia++) for (int ib = 0; ib < 21; ib += (fc->nm > 3 ? 1 : 2)) {
+        double a = A21[ia] / 65536.0, b = A21[ib] / 65536.0;
+        pixman_f_transform_t F = A, R; transpose(&ta, &tb); f_from_fixed(&tb, &R);
+        pixman_f_transform_t R0 = R;
+        fsrt_args args = { op, mode != 1 ? &F : NULL, mode != 0 ? &R : NULL, a, b };
+        int ret = c11_guard(thunk_fsrt, &args);
+        n++; nt++;
+        snprintf(desc, sizeof desc, "pixman_f_transform_%s(%s, %s, %.17g, %.17g) forward=%s reverse=%s", opname[op], mode != 1 ? "forward" : "NULL", mode != 0 ? "reverse" : "NULL", a, b,
+                 fmat_str(&A, ab, sizeof ab), fmat_str(&R0, bb, sizeof bb));
+        int zero = op == 0 && (a == 0 || b == 0);
+        if (ret < 0) { c11_fail("c11-f-srt-abort", "aborts: %s; %s", c11_abort_msg, desc); continue; }
+        if (zero) { if (ret) c11_fail("c11-f-scale-true-on-zero", "returned TRUE for a zero scale factor; %s", desc); continue; }
+        if (!ret) { c11_fail("c11-f-srt-false", "returned FALSE; %s", desc); continue; }
+        pixman_f_transform_t T, Ti;
+        if (op == 0) { pixman_f_transform_init_scale(&T, a, b); pixman_f_transform_init_scale(&Ti, 1 / a, 1 / b); }
+        else if (op == 1) { pixman_f_transform_init_rotate(&T, a, b); pixman_f_transform_init_rotate(&Ti, a, -b); }
+        else { pixman_f_transform_init_translate(&T, a, b); pixman_f_transform_init_translate(&Ti, -a, -b); }
+        if (mode != 1) fmat_check("c11-f-srt-inaccurate", "forward'", &T, &A, &F, desc);
+        if (mode != 0) fmat_check("c11-f-srt-inaccurate", "reverse'", &R0, &Ti, &R, desc);
+        vf_outcome(vf_mix(vf_hash64(&F, sizeof F, 35), vf_hash64(&R, sizeof R, 36)));
+    }
+    /* bounds */
+    for (int bi = 0; bi < 100; bi++) {
+        int xi = bi % 25, yi = bi / 25;
+        pixman_box16_t in = { BX[xi % 5], BY[yi % 4], BX[xi / 5], BY[(yi + 1) % 4] }, box = in;
+        int ret = pixman_f_transform_bounds(&A, &box);
+        n++;
+        int cx[4] = { in.x1, in.x2, in.x2, in.x1 }, cy[4] = { in.y1, in.y1, in.y2, in.y2 };
+        int must_false = 0, unrep = 0, judge = 1;
+        long double cq[4][2], ct[4][2]; int cvalid[4] = { 0, 0, 0, 0 };
+        for (int k = 0; k < 4; k++) {
+            double v[3] = { cx[k], cy[k], 1 };
+            ref_t e[3]; for (int i = 0; i < 3; i++) e[i] = ref_dot(&A.m[i][0], 1, v, 1, 3);
+            if (e[2].val == 0 && e[2].tol == 0) { must_false = 1; continue; }
+            if (fabsl(e[2].val) <= 64 * e[2].tol) { judge = 0; continue; }
+            cvalid[k] = 1;
+            for (int c = 0; c < 2; c++) {
+                long double q = e[c].val / e[2].val;
+                cq[k][c] = q;
+                ct[k][c] = 4 * DBL_U * fabsl(q) + e[c].tol / fabsl(e[2].val) + fabsl(q) * e[2].tol / fabsl(e[2].val);
+                if (floorl(q - ct[k][c]) < -32768 || ceill(q + ct[k][c]) > 32767) unrep = 1;
+            }
+        }
+        /* containment, judged with the slack of the double evaluation, when every corner fits int16 */
+        if (ret && !unrep && !must_false && judge) for (int k = 0; k < 4; k++) for (int c = 0; c < 2 && cvalid[k]; c++) {
+            long double q = cq[k][c], tol = ct[k][c];
+            if (!((long double)(c ? box.y1 : box.x1) <= q + tol && (long double)(c ? box.y2 : box.x2) >= q - tol)) {
+                snprintf(desc, sizeof desc, "pixman_f_transform_bounds(M=%s, box (%d,%d)-(%d,%d)) -> (%d,%d)-(%d,%d)", fmat_str(&A, ab, sizeof ab), in.x1, in.y1, in.x2, in.y2, box.x1, box.y1, box.x2, box.y2);
+                c11_fail("c11-f-bounds-corner-outside", "corner %d (%d,%d) maps to %c = %.20Lg, outside the returned box; %s", k, cx[k], cy[k], "xy"[c], q, desc);
+            }
+        }
+        snprintf(desc, sizeof desc, "pixman_f_transform_bounds(M=%s, box (%d,%d)-(%d,%d)) -> %d (%d,%d)-(%d,%d)", fmat_str(&A, ab, sizeof ab), in.x1, in.y1, in.x2, in.y2, ret, box.x1, box.y1, box.x2, box.y2);
+        if (must_false && ret) c11_fail("c11-f-bounds-true-on-zero-w", "returned TRUE although a corner has w == 0; %s", desc);
+        else if (judge && !must_false && unrep && ret)
+            c11_fail("c11-f-bounds-int16-wraps", "returned TRUE although a transformed corner lies outside the int16 range of pixman_box16_t (the value was truncated to 16 bits); expected FALSE; %s", desc);
+        else if (judge && !must_false && !unrep && !ret) c11_fail("c11-f-bounds-false", "returned FALSE although all corners are finite and fit int16; %s", desc);
+        nt += unrep || must_false;
+        vf_outcome(vf_mix(vf_hash64(&box, sizeof box, 37), (uint64_t)ret));
+    }
+    if (idx % 29 == 4 && c11_want_sample(7)) vf_sample("f_transform family on M=%s: %llu calls (multiply x%llu partners, point/point_3d x343 vectors, scale/rotate/translate, bounds x100) all within the double tolerance",
+                                                     fmat_str(&A, ab, sizeof ab), (unsigned long long)n, (unsigned long long)total);
+    c11_blk_end();
+    vf_count_eval(n); vf_count_nontrivial(nt); vf_count_libcalls(n);
+}
+
+/* f_invert over the same 3x3 alphabets as invert (entries with <= 2 significant bits: the double
+ * evaluation of det is exact there, so FALSE iff det == 0 can be demanded) */
+static void finv_block(uint64_t idx, void *ctx)
+{
+    const inv_ctx *ic = ctx;
+    int e[9]; uint64_t k = idx, n = 0, nt = 0;
+    for (int i = 0; i < ic->outer; i++) { e[i] = (int)(k % ic->n); k /= ic->n; }
+    uint64_t inner = 1; for (int i = ic->outer; i < 9; i++) inner *= ic->n;
+    pixman_transform_t m; pixman_f_transform_t f, out; char fb[500], ob[500], q0[48];
+    c11_blk_begin();
+    for (uint64_t q = 0; q < inner; q++) {
+        uint64_t kk = q;
+        for (int i = ic->outer; i < 9; i++) { e[i] = (int)(kk % ic->n); kk /= ic->n; }
+        for (int i = 0; i < 9; i++) m.matrix[i / 3][i % 3] = ic->al[e[i]];
+        f_from_fixed(&m, &f);
+        i128 cof[3][3], det = 0;
+        for (int i = 0; i < 3; i++) for (int j = 0; j < 3; j++) {
+            int i1 = (i + 1) % 3, i2 = (i + 2) % 3, j1 = (j + 1) % 3, j2 = (j + 2) % 3;
+            cof[i][j] = (i128)m.matrix[i1][j1] * m.matrix[i2][j2] - (i128)m.matrix[i1][j2] * m.matrix[i2][j1];
+        }
+        for (int j = 0; j < 3; j++) det += (i128)m.matrix[0][j] * cof[0][j];
+        int ret = pixman_f_transform_invert(&out, &f);
+        n++;
+        if (det == 0) { nt++; if (ret) c11_fail("c11-f-invert-true-on-singular", "pixman_f_transform_invert returned TRUE for det == 0; M=%s", fmat_str(&f, fb, sizeof fb)); continue; }
+        if (!ret) { c11_fail("c11-f-invert-false-on-invertible", "returned FALSE, det = %s/2^48; M=%s", i128_str(det, q0), fmat_str(&f, fb, sizeof fb)); continue; }
+        for (int i = 0; i < 3; i++) for (int j = 0; j < 3; j++) {
+            long double ex = (long double)cof[j][i] * 65536.0L / (long double)det;
+            long double tol = 16 * DBL_U * (fabsl(ex) + 1e-30L);
+            ST_ADD(f_demanded, 1);
+            if (!isfinite(out.m[i][j]) || fabsl((long double)out.m[i][j] - ex) > tol) {
+                c11_fail("c11-f-invert-inaccurate", "inverse[%d][%d] = %.17g, exact %.20Lg; M=%s result %s", i, j, out.m[i][j], ex, fmat_str(&f, fb, sizeof fb), fmat_str(&out, ob, sizeof ob));
+                i = 3; break;
+            }
+        }
+        vf_outcome(vf_hash64(&out, sizeof out, 39));
+    }
+    c11_blk_end();
+    vf_count_eval(n); vf_count_nontrivial(nt); vf_count_libcalls(n);
+}
+
+static void c11_run_float(int th)
+{
+    build_dvals();
+    vf_space_run("fixed-to-double", 21, tof_block, NULL);
+    vf_space_run("double-to-fixed", (uint64_t)9 * NDV, conv_block, NULL);
+    static f_ctx fc; fc.nm = th ? 4 : 3;
+    uint64_t nm = 1; for (int i = 0; i < 5; i++) nm *= fc.nm;
+    vf_space_run("f-transform-family", nm, ffam_block, &fc);
+    static inv_ctx fi; fi.al = th ? A6 : A5; fi.n = th ? 6 : 5; fi.outer = 4; fi.mode = 0;
+    uint64_t nb = 1; for (int i = 0; i < 4; i++) nb *= fi.n;
+    vf_space_run("f-invert", nb, finv_block, &fi);
+}
+
 #endif
